@@ -151,7 +151,10 @@ func (pkg EEDPackage) WriteTo(ch BytesChannel) error {
 	// x servername
 	// x procname
 	// 2 linenr
-	length := 11 + len(pkg.SQLState) + len(pkg.Msg) + len(pkg.ServerName) + len(pkg.ProcName)
+	// message number (4), state (1), class (1), SQL state length (1),
+	// status (1), transaction state (2), message length (2), server name
+	// length (1), proc name length (1), line number (2)
+	length := 16 + len(pkg.SQLState) + len(pkg.Msg) + len(pkg.ServerName) + len(pkg.ProcName)
 
 	if err := ch.WriteUint16(uint16(length)); err != nil {
 		return fmt.Errorf("failed to write length: %w", err)
